@@ -749,6 +749,8 @@ class ClientDriver(ReorgDriver):
                                          f'{len(conf)} entries, expected {len(exp_conf)}; first diff at '
                                          f'{next((j for j, (a, b) in enumerate(zip(conf, exp_conf)) if a != b), min(len(conf), len(exp_conf)))}', [hx])
                         if mp_ok and mpp != exp_mp:
+                            self.violate('C08', 'reported.get_history', f'{c.name} {sh[:10]}: unconfirmed part '
+                                         f'{mpp[:3]}, the daemon mempool implies {exp_mp[:3]}', [hx])
                             self.violate('C10', 'get_history.mempool', f'{c.name} {sh[:10]}: {mpp[:3]} '
                                          f'vs {exp_mp[:3]}', [hx])
                     r = self.ask(c, 'blockchain.scripthash.get_balance', [sh])
@@ -758,6 +760,11 @@ class ClientDriver(ReorgDriver):
                         if r is not None and 'result' in r and r['result']['confirmed'] != exp['confirmed']:
                             self.violate('C01', 'reported.balance', f'{c.name} {sh[:10]}: confirmed balance '
                                          f'{r["result"]["confirmed"]}, the chain implies {exp["confirmed"]}', [hx])
+                        if mp_ok and r is not None and 'result' in r and \
+                                r['result'].get('unconfirmed') != exp['unconfirmed']:
+                            self.violate('C08', 'reported.balance', f'{c.name} {sh[:10]}: unconfirmed balance '
+                                         f'{r["result"].get("unconfirmed")}, the mempool implies '
+                                         f'{exp["unconfirmed"]}', [hx])
                         self.violate('C10', 'get_balance', f'{c.name} {sh[:10]}: {r} expected {exp}', [hx])
                     r = self.ask(c, 'blockchain.scripthash.listunspent', [sh])
                     spent_by_mp = set()
@@ -789,11 +796,15 @@ class ClientDriver(ReorgDriver):
                         exp_u = [(hex_hash(a), b, v) for a, b, v in refmp.utxos(hx)]
                         must_u = sorted(u for u in exp_u if (bytes.fromhex(u[0])[::-1], u[1]) not in up)
                         if [u for u in mpu if u not in exp_u] or [u for u in must_u if u not in mpu]:
+                            self.violate('C08', 'reported.listunspent', f'{c.name} {sh[:10]}: unconfirmed '
+                                         f'outputs {mpu[:3]}, the mempool implies {exp_u[:3]}', [hx])
                             self.violate('C10', 'listunspent.mempool', f'{c.name} {sh[:10]}: {mpu[:3]} vs '
                                          f'{exp_u[:3]}', [hx])
                     r = self.ask(c, 'blockchain.scripthash.get_mempool', [sh])
                     if mp_ok and (r is None or 'result' not in r or sorted(
                             (x['tx_hash'], x['height'], x['fee']) for x in r['result']) != exp_mp):
+                        self.violate('C08', 'reported.get_mempool', f'{c.name} {sh[:10]}: {str(r)[:120]}, the '
+                                     f'mempool implies {exp_mp[:3]}', [hx])
                         self.violate('C10', 'get_mempool', f'{c.name} {sh[:10]}: {r} vs {exp_mp[:3]}', [hx])
                 self.probe('c10.script_sweeps')
             # by-height queries, 0 .. tip+2
